@@ -1,12 +1,14 @@
 (* C02 — Screen and experiment-space persistence is lossless.
    Statements only; every proof is `exact <lemma from Proofs/C02*.v>`.
-   "Constructible" = returned by [mk_screen] (the model of Screen(...)) for SOME arguments: any rows, arity,
-   control name, observations / mask given or not, mappings built from the data or supplied (and then possibly
-   strict supersets of the data, in any stored order).  No hypothesis on supplied mappings is needed: whatever
-   the constructor accepted is what save writes and load hands back to the constructor.
+   "Constructible" = returned by [mk_screen] (the model of Screen(...)) for SOME arguments: any rows (also none),
+   any arity, control name, observations / mask given or not, mappings built from the data or supplied (and then
+   possibly strict supersets of the data, in any stored order).  No hypothesis on the screen or on supplied
+   mappings is needed: whatever the constructor accepted is what save writes and load hands back to the constructor.
    [load] = the constructor called as load_h5 calls it (Model/Persist.v).
-   The literal clause "every constructible screen" is FALSE of the faithful model (and of the code): a screen
-   without rows saves but does not load (C02_load_save_refuted); what is true is C02_load_save_characterised. *)
+   History: before /repo commit 81a412f a screen without rows (and a space with an empty mapping) saved but did
+   not load; the model then said Err 8 and the literal clause was stated as refuted.  With encode_string_array /
+   decode_string_array the clause holds for EVERY constructible screen, and is stated so below; the former
+   witnesses are now Examples of successful round trips C02_ex_zero_rows and C02_ex_zero_rows_supplied. *)
 From Coq Require Import ZArith List Bool.
 From Batchie Require Import Lib.Sexp Model.Encode Model.Screen Model.Persist Proofs.C02Encode Proofs.C02Persist.
 Import ListNotations.
@@ -18,7 +20,6 @@ Open Scope Z_scope.
    observation bit patterns, mask), arity, control name, treatment / sample / plate ids and the three mappings *)
 Theorem C02_load_save : forall rows arity ctrl tmap smap og mg s,
   mk_screen rows arity ctrl tmap smap og mg = Ok s ->
-  rows <> [] -> arity <> 0%nat ->
   load (save s) = Ok s.
 Proof. exact load_save. Qed.
 Print Assumptions C02_load_save.
@@ -26,7 +27,6 @@ Print Assumptions C02_load_save.
 (* the same, observable by observable *)
 Theorem C02_load_save_observables : forall rows arity ctrl tmap smap og mg s,
   mk_screen rows arity ctrl tmap smap og mg = Ok s ->
-  rows <> [] -> arity <> 0%nat ->
   exists s', load (save s) = Ok s'
     /\ length (s_rows s') = length (s_rows s)
     /\ map r_sample (s_rows s') = map r_sample (s_rows s)        (* sample names *)
@@ -34,19 +34,19 @@ Theorem C02_load_save_observables : forall rows arity ctrl tmap smap og mg s,
     /\ map r_treats (s_rows s') = map r_treats (s_rows s)        (* treatment names and doses, per column *)
     /\ map r_obs (s_rows s') = map r_obs (s_rows s)              (* observations, bit patterns *)
     /\ map r_mask (s_rows s') = map r_mask (s_rows s)            (* observation mask *)
-    /\ s_arity s' = s_arity s
+    /\ s_arity s' = s_arity s                                    (* also when there are no rows *)
     /\ s_ctrl s' = s_ctrl s                                      (* control name *)
     /\ s_tids s' = s_tids s /\ s_sids s' = s_sids s /\ s_pids s' = s_pids s
     /\ s_tmap s' = s_tmap s /\ s_smap s' = s_smap s /\ s_pmap s' = s_pmap s.
 Proof. exact load_save_observables. Qed.
 Print Assumptions C02_load_save_observables.
 
-(* loading never renumbers: whenever a saved constructible screen loads, ids and mappings are literally those
-   of the saved screen; a supplied mapping comes back verbatim (stored order, entries no row uses included) *)
-Theorem C02_no_renumber : forall rows arity ctrl tmap smap og mg s s',
+(* loading never renumbers: ids and mappings after the load are literally those of the saved screen; a supplied
+   mapping comes back verbatim (stored order, entries no row uses included) *)
+Theorem C02_no_renumber : forall rows arity ctrl tmap smap og mg s,
   mk_screen rows arity ctrl tmap smap og mg = Ok s ->
-  load (save s) = Ok s' ->
-  s_tids s' = s_tids s /\ s_sids s' = s_sids s /\ s_pids s' = s_pids s
+  exists s', load (save s) = Ok s'
+  /\ s_tids s' = s_tids s /\ s_sids s' = s_sids s /\ s_pids s' = s_pids s
   /\ s_tmap s' = s_tmap s /\ s_smap s' = s_smap s /\ s_pmap s' = s_pmap s
   /\ (forall m b, tmap = Some (m, b) -> s_tmap s' = m)
   /\ (forall m b, smap = Some (m, b) -> s_smap s' = m).
@@ -54,84 +54,52 @@ Proof. exact no_renumber. Qed.
 Print Assumptions C02_no_renumber.
 
 (* a second save writes the same file, a second load returns the same screen, and so on for ever *)
-Theorem C02_fixed_point : forall rows arity ctrl tmap smap og mg s s',
+Theorem C02_fixed_point : forall rows arity ctrl tmap smap og mg s,
   mk_screen rows arity ctrl tmap smap og mg = Ok s ->
-  load (save s) = Ok s' ->
-  save s' = save s /\ load (save s') = Ok s' /\ forall n, cycles n s' = Ok s'.
+  exists s', load (save s) = Ok s'
+  /\ save s' = save s /\ load (save s') = Ok s' /\ forall n, cycles n s' = Ok s'.
 Proof. exact fixed_point. Qed.
 Print Assumptions C02_fixed_point.
 
 Theorem C02_any_number_of_cycles : forall rows arity ctrl tmap smap og mg s,
   mk_screen rows arity ctrl tmap smap og mg = Ok s ->
-  rows <> [] -> arity <> 0%nat ->
   forall n, cycles n s = Ok s.
 Proof. exact any_cycles. Qed.
 Print Assumptions C02_any_number_of_cycles.
 
-(* exactly when the round trip works: at least one experiment and one treatment column; otherwise the load
-   fails (tag 8: string decode of a dataset without elements) *)
-Theorem C02_load_save_characterised : forall rows arity ctrl tmap smap og mg s,
-  mk_screen rows arity ctrl tmap smap og mg = Ok s ->
-  load (save s) = if negb (Nat.eqb (length rows) 0) && negb (Nat.eqb arity 0) then Ok s else Err 8.
-Proof. exact load_save_char_args. Qed.
+(* exact description of load . save on ANY screen record (constructible or not): it is the constructor call
+   load_h5 makes — rows, arity and control name as stored, observations and mask given, the stored treatment and
+   sample mappings supplied, plates re-encoded.  (Replaces the former Ok / Err 8 characterisation.) *)
+Theorem C02_load_save_characterised : forall s,
+  load (save s)
+  = mk_screen (s_rows s) (s_arity s) (s_ctrl s) (Some (s_tmap s, true)) (Some (s_smap s, true)) true true.
+Proof. exact load_save_is_ctor. Qed.
 Print Assumptions C02_load_save_characterised.
 
-(* the literal clause (no restriction on the screen) is false: the screen without rows is constructible,
-   is saved, and cannot be loaded *)
-Theorem C02_load_save_refuted : exists rows arity ctrl tmap smap og mg s,
-  mk_screen rows arity ctrl tmap smap og mg = Ok s /\ load (save s) = Err 8.
-Proof.
-  exists [], 2%nat, [], None, None, true, true. eexists. split; vm_compute; reflexivity.
-Qed.
-Print Assumptions C02_load_save_refuted.
-
-(* also with supplied, non-empty mappings (an empty test split of a non-empty screen) *)
-Theorem C02_load_save_refuted_supplied : exists tm sm s,
-  tm <> [] /\ sm <> [] /\
-  mk_screen [] 1%nat [] (Some (tm, true)) (Some (sm, true)) true true = Ok s /\ load (save s) = Err 8.
-Proof.
-  exists [(([97], 5), 0)], [([115], 0)]. eexists.
-  split; [discriminate|]. split; [discriminate|]. split; vm_compute; reflexivity.
-Qed.
-Print Assumptions C02_load_save_refuted_supplied.
-
 (* ---- experiment space ---- *)
-Theorem C02_space_load_save : forall sp,
-  sp_tmap sp <> [] -> sp_smap sp <> [] -> space_load (space_save sp) = Ok sp.
+Theorem C02_space_load_save : forall sp, space_load (space_save sp) = Ok sp.
 Proof. exact space_load_save. Qed.
 Print Assumptions C02_space_load_save.
 
 (* no renumbering, fixed point, any number of cycles *)
-Theorem C02_space_fixed_point : forall sp sp',
-  space_load (space_save sp) = Ok sp' ->
-  sp' = sp /\ space_save sp' = space_save sp /\ forall n, space_cycles n sp' = Ok sp'.
+Theorem C02_space_fixed_point : forall sp,
+  exists sp', space_load (space_save sp) = Ok sp'
+  /\ sp' = sp /\ space_save sp' = space_save sp /\ forall n, space_cycles n sp' = Ok sp'.
 Proof. exact space_fixed_point. Qed.
 Print Assumptions C02_space_fixed_point.
 
-(* the space of every loadable constructible screen round-trips, and from_screen commutes with the screen's
-   own round trip *)
+Theorem C02_space_any_number_of_cycles : forall sp n, space_cycles n sp = Ok sp.
+Proof. exact space_cycles_fixed. Qed.
+Print Assumptions C02_space_any_number_of_cycles.
+
+(* the space of every constructible screen round-trips, and from_screen commutes with the screen's own round trip *)
 Theorem C02_space_of_screen : forall rows arity ctrl tmap smap og mg s,
   mk_screen rows arity ctrl tmap smap og mg = Ok s ->
-  rows <> [] -> arity <> 0%nat ->
   space_load (space_save (space_of_screen s)) = Ok (space_of_screen s)
   /\ (forall n, space_cycles n (space_of_screen s) = Ok (space_of_screen s))
   /\ (forall s', load (save s) = Ok s' -> space_of_screen s' = space_of_screen s).
 Proof. exact space_of_screen_load_save. Qed.
 Print Assumptions C02_space_of_screen.
-
-Theorem C02_space_load_save_characterised : forall sp,
-  space_load (space_save sp)
-  = if negb (Nat.eqb (length (sp_tmap sp)) 0) && negb (Nat.eqb (length (sp_smap sp)) 0) then Ok sp else Err 8.
-Proof. exact space_load_save_char. Qed.
-Print Assumptions C02_space_load_save_characterised.
-
-(* the space of the (constructible) screen without rows is saved and cannot be loaded *)
-Theorem C02_space_load_save_refuted : exists rows arity ctrl tmap smap og mg s,
-  mk_screen rows arity ctrl tmap smap og mg = Ok s /\ space_load (space_save (space_of_screen s)) = Err 8.
-Proof.
-  exists [], 2%nat, [], None, None, true, true. eexists. split; vm_compute; reflexivity.
-Qed.
-Print Assumptions C02_space_load_save_refuted.
 
 (* ---- non-vacuity: the hypotheses are met by non-trivial screens ---- *)
 Definition ex_rows : list row :=
@@ -169,14 +137,27 @@ Example C02_ex_built :
   end.
 Proof. vm_compute. repeat split. Qed.
 
-(* the premise of C02_no_renumber / C02_fixed_point (load succeeds) is met *)
-Example C02_ex_load_succeeds :
-  exists s s', mk_screen ex_rows 2 [] None None true true = Ok s /\ load (save s) = Ok s'.
-Proof. do 2 eexists. split; vm_compute; reflexivity. Qed.
-
 (* a mapping that does not cover the data, or is not dense, is refused at construction (so it is not
    "constructible") *)
 Example C02_ex_not_constructible :
   mk_screen ex_rows 2 [] (Some ([(([97], 5), 0)], true)) None true true = Err 5
   /\ mk_screen ex_rows 2 [] (Some ([(([99], 5), 3); (([98], 7), 1); (([], 0), -1); (([97], 5), 0)], true)) None true true = Err 3.
 Proof. split; vm_compute; reflexivity. Qed.
+
+(* the former counterexamples: screens without rows now round-trip, arity and (empty or supplied) mappings kept *)
+Example C02_ex_zero_rows :
+  match mk_screen [] 2 [] None None true true with
+  | Ok s => s_rows s = [] /\ s_arity s = 2%nat /\ s_tmap s = [] /\ s_smap s = []
+            /\ f_arity (save s) = 2%nat /\ load (save s) = Ok s /\ cycles 3 s = Ok s
+            /\ space_load (space_save (space_of_screen s)) = Ok (space_of_screen s)
+  | Err _ => False
+  end.
+Proof. vm_compute. repeat split. Qed.
+
+Example C02_ex_zero_rows_supplied :
+  match mk_screen [] 1 [] (Some ([(([97], 5), 0)], true)) (Some ([([115], 0)], true)) true true with
+  | Ok s => s_rows s = [] /\ s_arity s = 1%nat /\ s_tmap s = [(([97], 5), 0)] /\ s_smap s = [([115], 0)]
+            /\ load (save s) = Ok s /\ cycles 2 s = Ok s
+  | Err _ => False
+  end.
+Proof. vm_compute. repeat split. Qed.
